@@ -364,8 +364,8 @@ TIERS = {
     "thorough": dict(
         gens=[dict(CellNames='{"cub", "ort", "tri", "trineg", "skew"}', PatNames=findops.ALLP, MaxCopies=1, MaxDecoys=0,
                    MaxAtoms=9, Anchors="AnchQ", Decoys="DecoyQ", DecoyRots="RotsQ", Shifts="ShiftQ"),
-              dict(CellNames='{"ort", "trineg", "skew"}', PatNames='{"P1", "P2h", "P2s", "P3lin", "P3iso", "P4ax"}', MaxCopies=2,
-                   MaxDecoys=0, MaxAtoms=10, Anchors="AnchQ", Decoys="DecoyQ", DecoyRots="RotsQ", Shifts="ShiftQ1")],
+              dict(CellNames='{"ort", "trineg", "skew"}', PatNames='{"P1", "P2h", "P2s", "P3lin", "P3iso", "P3sca", "P4ax"}', MaxCopies=2,
+                   MaxDecoys=0, MaxAtoms=10, Anchors="AnchB", Decoys="DecoyQ", DecoyRots="RotsQ", PlantRots="RotsQ", Shifts="ShiftQ1")],
         requests=6),
 }
 
